@@ -5,11 +5,13 @@ from __future__ import annotations
 import ast
 
 from ..astutil import inside
+from ..core import walk_own
+from ..events import container_events, name_aug_events, root_name
 from ..cfg import CFG
 from ..core import AnalysisError, const_value
 from ..defuse import DefUse, Terms, show, walk_term
 from ..defuse import key as tkey
-from ..tutil import (base_of, bound_args, callee_of, lin, norm_calls,
+from ..tutil import (base_of, bound_args, flattened_of, callee_of, lin, norm_calls,
                      np_call, strip_conv, strip_materialise, subst_params)
 
 EXPLANATION = (
@@ -53,268 +55,409 @@ def run(ctx):
 
 
 # ------------------------------------------------------------------ a
+def _counting_while(w, du, T, cfg):
+    """(k name, step term, bound term) of a loop
+           k = 0                      (checked by the caller: init)
+           while k + step < bound:    (or <=; either orientation)
+               ... k' = k + step      (the only redefinition of k, on every
+                                       pass: k += step, or k = stop with
+                                       stop = k + step)
+       else None."""
+    from ..astutil import norm_cmp
+    t = T.of(w.test)
+    n = norm_cmp(t, True)
+    if n is None or n[0] not in ("lt", "le"):
+        return None
+    left, bound = n[1], n[2]
+    li = lin(left)
+    ks = [(li.terms[k], c) for k, c in li.atoms.items()
+          if li.terms[k][0] == "var"]
+    if len(ks) != 1 or ks[0][1] != 1:
+        return None
+    kvar = ks[0][0]
+    kname = kvar[1]
+    # step = left - k
+    st = li + lin(kvar).scale(-1)
+    redefs = [d for d in du.defs if d.name == kname and d.node is not None
+              and inside(d.node, w) and d.node is not w]
+    if len(redefs) != 1:
+        return None
+    d = redefs[0]
+    nv = lin(T.of_def(d)) + lin(kvar).scale(-1)
+    # the new value is k + step (k: the loop-carried variable)
+    if not (nv == st):
+        return None
+    body_first = cfg.node_of(w.body[0]).id
+    hdr = cfg.node_of(w).id
+    dn = cfg.node_of(d.node).id
+    if not (cfg.every_path_passes(body_first, hdr, {dn}) or body_first == dn):
+        return None
+    if any(isinstance(x, (ast.Break, ast.Return)) for x in ast.walk(w)):
+        return None
+    return kname, st, bound, n[0]
+
+
 def _train_sets(ctx, f):
+    """Sink-driven: the object yielded per fold, how it is initialised, and
+    every update event that reaches it (through aliases), judged on terms."""
     prog = ctx.prog
     du = DefUse(prog, f)
     T = Terms(du, phi_vars=True)
     cfg = CFG(f.node)
     ps = f.params
     p_test, p_cap, p_size, p_rng = ps[:4]
-    outer = [n for n in ast.walk(f.node) if isinstance(n, ast.For)
-             and isinstance(n.iter, ast.Call)
-             and ast.unparse(n.iter) == f"zip(*{p_test})"]
+    ZIP = ("call", "builtins.zip", (("star", ("param", p_test)),), ())
+    outer = [n for n in walk_own(f.node) if isinstance(n, ast.For)
+             and T.of(n.iter) == ZIP]
     ctx.require(len(outer) == 1, f"{f.qual}: loop over zip(*test_idx) not "
                 "found")
     fl = outer[0]
-    fold_var = fl.target.id
-    ys = [n for n in ast.walk(fl) if isinstance(n, ast.Yield)]
-    ok_y = len(ys) == 1 and isinstance(ys[0].value, ast.Name) and not \
-        cfg.guards(ys[0])
+    FOLD = ("elem", ZIP)
+    ys = [n for n in walk_own(f.node) if isinstance(n, ast.Yield)]
+    names = set()
+    for y in ys:
+        if isinstance(y.value, ast.Name):
+            names.add(y.value.id)
+    hdr = cfg.node_of(fl).id
+    first = cfg.node_of(fl.body[0]).id
+    yn = {cfg.node_of(cfg.stmt_of(y)).id for y in ys}
+    once = bool(ys) and all(inside(y, fl) for y in ys) and (
+        cfg.every_path_passes(first, hdr, yn) or first in yn) and not any(
+        (yn - {a}) & cfg.reachable_normally(a, avoid={hdr}) for a in yn)
+    ok_y = once and len(names) == 1 and all(
+        isinstance(y.value, ast.Name) for y in ys)
     ctx.check(ok_y, "C02a-one-training-set-per-fold", f,
               "exactly one training set is yielded per held-out fold, in "
-              "fold order", "yield is conditional or missing", node=fl)
-    tname = ys[0].value.id if ok_y else "train_idx"
-    # all writes to train_idx
-    writes = []
-    for n in ast.walk(f.node):
-        if isinstance(n, ast.Assign):
-            for t in n.targets:
-                if isinstance(t, ast.Name) and t.id == tname:
-                    writes.append(("init", n))
-                elif isinstance(t, ast.Subscript) and isinstance(
-                        t.value, ast.Name) and t.value.id == tname:
-                    writes.append(("store", n))
-        elif isinstance(n, ast.AugAssign) and isinstance(
-                n.target, ast.Subscript) and isinstance(
-                    n.target.value, ast.Name) and n.target.value.id == tname:
-            writes.append(("aug", n))
-        elif isinstance(n, ast.Call) and isinstance(
-                n.func, ast.Attribute) and n.func.attr in (
-                    "append", "extend", "insert") and tname in ast.unparse(
-                        n.func.value):
-            writes.append(("mut", n))
-    ctx.floor("C02a-writes", len(writes), 4)
-    # file loop
-    file_loops = [n for n in ast.walk(fl) if isinstance(n, ast.For)
-                  and ast.unparse(n.iter) == f"enumerate({fold_var})"]
+              "fold order",
+              "a pass through the fold loop yields no training set, or "
+              "more than one, or different objects", node=fl)
+    if not ok_y:
+        return
+    tname = next(iter(names))
+    # --- initialisation: one empty list per file, for every fold
+    inits = [d for d in du.defs if d.name == tname and d.kind == "assign"
+             and d.node is not None]
+    from ..tutil import one_to_one
+    SIZE = ("param", p_size)
+    for d in inits:
+        t = T.of_def(d)
+        base = one_to_one(t) if t[0] == "comp" else None
+        if base is not None and base[0] == "call" and \
+                base[1] == "builtins.range" and len(base[2]) == 1 and \
+                base[2][0] == ("call", "builtins.len", (SIZE,), ()):
+            base = SIZE
+        ok = t[0] == "comp" and t[1] == "list" and t[2] == ("list", ()) \
+            and base == SIZE and inside(d.node, fl)
+        ctx.check(ok, "C02a-training-set-provenance", f,
+                  "training index lists start empty for every fold",
+                  f"{tname} = {show(t, 100)}"
+                  + ("" if inside(d.node, fl) else " (outside the fold "
+                     "loop: rows of an earlier fold stay in the set)"),
+                  node=d.node)
+    ctx.require(bool(inits), f"{f.qual}: {tname} is never initialised")
+    # --- update events that reach the yielded object
+    evs = [e for e in container_events(f.node, T, cfg)
+           + name_aug_events(f.node, du, T, cfg)
+           if root_name(e.recv) == tname]
+    n_writes = len(inits) + len(evs)
+    ctx.floor("C02a-writes", n_writes, 3)
+    file_loops = [n for n in walk_own(fl) if isinstance(n, ast.For)
+                  and T.of(n.iter) == ("call", "builtins.enumerate",
+                                       (FOLD,), ())]
     ctx.require(len(file_loops) == 1, f"{f.qual}: loop over the files of a "
                 "fold not found")
     fil = file_loops[0]
-    fi_var, held_var = (e.id for e in fil.target.elts)
-    for kind, n in writes:
-        if kind == "init":
-            ok = ast.unparse(n.value) == f"[[] for _ in {p_size}]" and any(
-                x is n for x in ast.walk(fl))
-            ctx.check(ok, "C02a-training-set-provenance", f,
-                      "training index lists start empty for every fold",
-                      f"{ast.unparse(n)[:80]}", node=n)
-        elif kind == "aug":
-            idx = ast.unparse(n.target.slice)
-            v = n.value
-            inside = any(x is n for x in ast.walk(fil))
+    FI, HELD = ("idx", FOLD), ("elem", FOLD)
+    DS = ("sub", SIZE, FI)
+
+    def slot_of(e):
+        """file index of the slot an event changes, else None"""
+        r = e.recv
+        if e.key is not None and r[0] == "var" and r[1] == tname:
+            return e.key
+        if r[0] == "sub" and r[1][0] == "var" and r[1][1] == tname and \
+                e.key is None:
+            return r[2]
+        return None
+
+    def strip_seq(v):
+        while v[0] == "call" and v[1] in ("builtins.list", "builtins.sorted",
+                                          "builtins.tuple") and \
+                len(v[2]) == 1 and not v[3]:
+            v = v[2][0]
+        return v
+
+    pieces = []       # (range term, event)
+    for e in evs:
+        slot = slot_of(e)
+        if e.kind in ("aug", "extend") and slot is not None:
+            v = strip_seq(e.value if e.kind == "aug" else e.args[0])
             ok = False
-            why = ast.unparse(n)[:120]
-            # list(S) / sorted(S) / S itself: += consumes any iterable
-            while isinstance(v, ast.Call) and isinstance(
-                    v.func, ast.Name) and v.func.id in (
-                        "list", "sorted", "tuple") and len(v.args) == 1:
-                v = v.args[0]
-            if isinstance(n.op, ast.Add) and isinstance(
-                    v, ast.BinOp) and isinstance(v.op, ast.Sub):
-                l, r = v.left, v.right
-                ok = (inside and idx == fi_var
-                      and isinstance(l, ast.Call)
-                      and ast.unparse(l.func) in ("set", "frozenset")
-                      and isinstance(l.args[0], ast.Call)
-                      and ast.unparse(l.args[0].func) == "range"
-                      and ast.unparse(r) in (f"set({held_var})",
-                                             f"frozenset({held_var})"))
-                if not ok:
-                    why = (f"train_idx[{idx}] += {ast.unparse(v)[:80]}: "
-                           f"expected train_idx[{fi_var}] += list(set("
-                           f"range(...)) - set({held_var})), the held-out "
-                           "indices of the same file")
+            why = show(v, 120)
+            if v[0] == "bin" and v[1] == "-":
+                l, r = v[2], v[3]
+                is_set = (lambda x: x[0] == "call" and x[1] in (
+                    "builtins.set", "builtins.frozenset") and len(x[2]) == 1)
+                ok = (inside(e.node, fil) and slot == FI and is_set(l)
+                      and is_set(r) and l[2][0][0] == "call"
+                      and l[2][0][1] == "builtins.range"
+                      and r[2][0] == HELD)
+                if ok:
+                    pieces.append((l[2][0], e))
+                else:
+                    why = (f"{tname}[{show(slot, 40)}] grows by "
+                           f"{show(v, 80)}: expected {tname}[file] += "
+                           "set(range(...)) - set(held-out rows of the same "
+                           "file)")
             ctx.check(ok, "C02a-training-set-provenance", f,
                       "rows added to a file's training set are a range "
-                      "minus that file's held-out fold", why, node=n)
-        elif kind == "store":
-            idx = ast.unparse(n.targets[0].slice)
-            v = n.value
+                      "minus that file's held-out fold", why, node=e.node)
+        elif e.kind == "store" and slot is not None:
+            v = e.value
             ok = False
-            why = ast.unparse(n)[:140]
-            if isinstance(v, ast.Call) and isinstance(
-                    v.func, ast.Attribute) and v.func.attr == "choice":
-                kws = {k.arg: k.value for k in v.keywords}
-                rep = kws.get("replace") or (v.args[2] if len(v.args) > 2
-                                             else None)
-                src = ast.unparse(v.args[0]) if v.args else ""
-                loop = cfg.enclosing(n, (ast.For,))
-                lv = None
-                if loop is not None and isinstance(
-                        loop.target, ast.Tuple) and ast.unparse(
-                            loop.iter).startswith("enumerate("):
-                    lv = loop.target.elts[0].id
-                rng_ok = ast.unparse(v.func.value) == p_rng
-                ok = (src == f"{tname}[{idx}]" and lv == idx
-                      and const_value(rep) is False and rng_ok)
-                if src != f"{tname}[{idx}]":
-                    why = (f"{tname}[{idx}] is sub-sampled from {src}: the "
-                           "capped training rows of one file are drawn "
-                           "from another file's index list (which contains "
-                           "rows of this file's held-out fold)")
-                elif const_value(rep) is not False:
+            why = show(v, 140)
+            if v[0] == "mcall" and v[2] == "choice":
+                b = dict(v[4])
+                args = v[3]
+                src = args[0] if args else b.get("a")
+                size = args[1] if len(args) > 1 else b.get("size")
+                rep = args[2] if len(args) > 2 else b.get("replace")
+                quota_it = slot[1] if slot[0] == "idx" else None
+                own = src is not None and src[0] == "sub" and \
+                    src[1][0] == "var" and src[1][1] == tname and \
+                    src[2] == slot
+                ok = (own and rep == ("const", False)
+                      and v[1] == ("param", p_rng)
+                      and quota_it is not None
+                      and size == ("elem", quota_it))
+                if not own:
+                    why = (f"{tname}[{show(slot, 30)}] is sub-sampled from "
+                           f"{show(src, 60) if src else None}: the capped "
+                           "training rows of one file are drawn from "
+                           "another file's index list (which contains rows "
+                           "of this file's held-out fold)")
+                elif rep != ("const", False):
                     why = "sub-sampling with replacement"
             ctx.check(ok, "C02a-training-set-provenance", f,
                       "the capped training set is sampled without "
                       "replacement from the same file's own training "
-                      "indices", why, node=n)
+                      "indices", why, node=e.node)
         else:
             ctx.fail("C02a-training-set-provenance", f,
-                     f"unexpected write {ast.unparse(n)[:80]}",
+                     f"unexpected update {e.kind} of {show(e.recv, 60)}",
                      "training indices are modified by an unrecognised "
-                     "operation", node=n)
-    # ranges tile [0, ds)
-    rng_calls = [n for n in ast.walk(fil) if isinstance(n, ast.Call)
-                 and ast.unparse(n.func) == "range"]
-    texts = sorted(ast.unparse(r) for r in rng_calls)
-    wl = [n for n in ast.walk(fil) if isinstance(n, ast.While)]
-    ok_t = False
-    if len(wl) == 1 and len(rng_calls) == 2:
-        k = None
-        m = ast.unparse(wl[0].test)
-        # while k + step < ds: range(k, k+step); k += step ; then range(k, ds)
-        incs = [s for s in wl[0].body if isinstance(s, ast.AugAssign)
-                and isinstance(s.target, ast.Name)]
-        inits = [s for s in fil.body if isinstance(s, ast.Assign)
-                 and const_value(s.value) == 0]
-        if incs and inits:
-            k = ast.unparse(incs[0].target)
-            step = ast.unparse(incs[0].value)
-            ds = [ast.unparse(s.targets[0]) for s in fil.body
-                  if isinstance(s, ast.Assign)
-                  and ast.unparse(s.value) == f"{p_size}[{fi_var}]"]
-            if ds:
-                ok_t = (m == f"{k} + {step} < {ds[0]}"
-                        and f"range({k}, {k} + {step})" in texts
-                        and f"range({k}, {ds[0]})" in texts
-                        and ast.unparse(inits[0].targets[0]) == k)
+                     "operation", node=e.node)
+    # --- the ranges whose complement is taken tile [0, rows of the file)
+    ok_t, why_t = _ranges_tile(pieces, fil, du, T, cfg, DS)
     ctx.check(ok_t, "C02a-ranges-tile-the-file", f,
               "the ranges whose complement is taken tile [0, number of "
-              "rows of the file)", f"ranges: {texts}", node=fil)
+              "rows of the file)", why_t, node=fil)
+
+
+def _ranges_tile(pieces, fil, du, T, cfg, DS):
+    """Accepted ways to cover [0, DS):
+         range(DS) / range(0, DS)
+         k = 0; while k + s < DS: range(k, k + s); k += s   then range(k, DS)
+         for a in range(0, DS, s): range(a, min(a + s, DS))
+    """
+    def bounds(r):
+        a = r[2]
+        if len(a) == 1:
+            return ("const", 0), a[0]
+        return a[0], a[1]
+
+    desc = [show(r, 60) for r, _e in pieces]
+    if len(pieces) == 1:
+        lo, hi = bounds(pieces[0][0])
+        e = pieces[0][1]
+        if lo == ("const", 0) and hi == DS and cfg.enclosing(
+                e.node, (ast.While,)) is None:
+            return True, ""
+        lp = cfg.enclosing(e.node, (ast.For,))
+        if lp is not None and lp is not fil:
+            it = T.of(lp.iter)
+            if it[0] == "call" and it[1] == "builtins.range" and \
+                    len(it[2]) == 3 and it[2][0] == ("const", 0) and \
+                    it[2][1] == DS:
+                A = ("elem", it)
+                step = it[2][2]
+                want_hi = ("call", "builtins.min",
+                           (("bin", "+", A, step), DS), ())
+                want_hi2 = ("call", "builtins.min",
+                            (DS, ("bin", "+", A, step)), ())
+                if lo == A and hi in (want_hi, want_hi2):
+                    return True, ""
+        return False, f"ranges: {desc}"
+    if len(pieces) == 2:
+        inw = [(r, e) for r, e in pieces
+               if cfg.enclosing(e.node, (ast.While,)) is not None]
+        out = [(r, e) for r, e in pieces
+               if cfg.enclosing(e.node, (ast.While,)) is None]
+        if len(inw) == 1 and len(out) == 1:
+            w = cfg.enclosing(inw[0][1].node, (ast.While,))
+            cw = _counting_while(w, du, T, cfg)
+            if cw is None:
+                return False, ("the loop that walks through the file is not "
+                               "a counting loop 'k = 0; while k + step < "
+                               f"rows: ...; k += step': ranges {desc}")
+            kname, st, bound, kind = cw
+            if bound != DS:
+                return False, (f"the loop runs up to {show(bound, 60)}, not "
+                               "the number of rows of the file")
+            lo1, hi1 = bounds(inw[0][0])
+            lo2, hi2 = bounds(out[0][0])
+            isk = (lambda x: x[0] == "var" and x[1] == kname)
+            d = lin(hi1) + lin(lo1).scale(-1)
+            inits = [dd for dd in du.defs if dd.name == kname
+                     and dd.kind == "assign" and dd.node is not None
+                     and not inside(dd.node, w)]
+            ok = (isk(lo1) and d == st and isk(lo2) and hi2 == DS
+                  and len(inits) == 1
+                  and T.of_def(inits[0]) == ("const", 0)
+                  and inside(inits[0].node, fil)
+                  # the tail piece follows the loop on every pass through
+                  # the file loop
+                  and cfg.every_path_passes(
+                      cfg.node_of(fil.body[0]).id, cfg.node_of(fil).id,
+                      {cfg.node_of(out[0][1].stmt).id})
+                  and cfg.node_of(out[0][1].stmt).id in cfg.reachable_from(
+                      cfg.node_of(w).id))
+            if ok:
+                return True, ""
+            return False, (f"ranges {desc} do not continue one another from "
+                           "0 to the number of rows")
+    return False, f"ranges: {desc}"
 
 
 # ------------------------------------------------------------------ b
 def _brew_mapping(ctx, f):
+    """All clauses are read off the (bound, normalised) argument terms of
+    make_train_sets, parse_in_chunks and _predict: temporaries, keyword or
+    positional spelling, loops versus comprehensions and the way the
+    per-collection index is assembled do not matter."""
     prog = ctx.prog
     du = DefUse(prog, f)
     T = Terms(du)
-    # folds: one _split per collection with the caller's fold count and rng
-    sp = [n for n in ast.walk(f.node) if isinstance(n, ast.Assign)
-          and "_split" in ast.unparse(n.value)
-          and isinstance(n.value, ast.ListComp)]
-    ctx.require(len(sp) == 1, f"{f.qual}: fold split not found")
-    tfi = ast.unparse(sp[0].targets[0])
-    e = sp[0].value.elt
-    ok = ast.unparse(sp[0].value.generators[0].iter) == "psms" and \
-        isinstance(e, ast.Call) and [ast.unparse(a) for a in e.args] == [
-            "folds", "rng"]
+    from ..proto import Calls
+    from ..tutil import anon, normalise, strip_materialise
+    c = Calls(prog, f, du=du, T=T)
+
+    def one_call(q, what):
+        sites = c.calls(q)
+        ctx.require(len(sites) == 1, f"{f.qual}: {what} call not found "
+                    f"({len(sites)})")
+        t, node = sites[0]
+        b = bound_args(prog, t)
+        ctx.require(b is not None, f"{f.qual}: {what} arguments not bound")
+        return b, node
+
+    def nrm(t):
+        return anon(normalise(t)) if t is not None else None
+
+    mts, mts_n = one_call("mokapot.brew.make_train_sets", "make_train_sets")
+    pic, pic_n = one_call("mokapot.parsers.pin.parse_in_chunks",
+                          "parse_in_chunks")
+    prd, prd_n = one_call("mokapot.brew._predict", "_predict")
+    mp = prog.func("mokapot.brew.make_train_sets").params
+    pp = prog.func("mokapot.parsers.pin.parse_in_chunks").params
+    rp = prog.func("mokapot.brew._predict").params
+    PSMS = prd.get(rp[1])
+    FOLDS = nrm(mts.get(mp[0]))
+    RNG = mts.get(mp[3])
+    # folds: one _split per collection with the caller's fold count and the
+    # run's generator
+    ok = False
+    FL = None
+    if FOLDS is not None and FOLDS[0] == "comp" and len(FOLDS[3]) == 1 \
+            and not FOLDS[3][0][2] and FOLDS[3][0][1] == PSMS:
+        e = FOLDS[2]
+        ok = (e[0] == "mcall" and e[1] == ("elem", PSMS)
+              and e[2] == "_split"
+              and e[3][:1] == (("param", "folds"),)
+              and (e[3][1:2] == (RNG,) or dict(e[4]).get("rng") == RNG)
+              and RNG is not None)
+        FL = e
     ctx.check(ok, "C02b-split-per-collection", f,
               "every collection is split into the requested number of folds "
               "with the run's generator",
-              f"{ast.unparse(sp[0].value)[:100]}", node=sp[0])
-    # train sets from the same folds, handed to parse_in_chunks unchanged
-    mts = [n for n in ast.walk(f.node) if isinstance(n, ast.Call)
-           and ast.unparse(n.func) == "make_train_sets"]
-    pic = [n for n in ast.walk(f.node) if isinstance(n, ast.Call)
-           and ast.unparse(n.func) == "parse_in_chunks"]
-    ctx.require(len(mts) == 1 and len(pic) == 1,
-                f"{f.qual}: make_train_sets/parse_in_chunks not found")
-    kw = {k.arg: ast.unparse(k.value) for k in mts[0].keywords}
-    ctx.check(kw.get("test_idx") == tfi and kw.get("rng") == "rng"
-              and kw.get("data_size") == "data_size"
-              and kw.get("subset_max_train") == "subset_max_train",
+              f"folds = {show(FOLDS, 140) if FOLDS else None}", node=mts_n)
+    want_size = ("comp", "list", ("call", "builtins.len", (
+        ("attr", ("elem", PSMS), "spectra_dataframe"),), ()),
+        (((), PSMS, ()),))
+    ctx.check(ok and nrm(mts.get(mp[2])) == want_size
+              and mts.get(mp[1]) == ("param", "subset_max_train"),
               "C02b-train-sets-from-folds", f,
               "training sets are derived from the very fold assignment that "
-              "is used for scoring", f"make_train_sets({kw})", node=mts[0])
-    tt = T.of({k.arg: k.value for k in pic[0].keywords}.get(
-        "train_idx") or pic[0].args[1])
-    ok_t = tt[0] == "call" and tt[1] == "builtins.list" and \
-        tt[2][0][0] == "call" and tt[2][0][1] == \
-        "mokapot.brew.make_train_sets"
-    pk = {k.arg: ast.unparse(k.value) for k in pic[0].keywords}
-    ctx.check(ok_t and pk.get("psms") == "psms",
+              "is used for scoring (and the sizes of the same collections)",
+              f"make_train_sets(test_idx={show(FOLDS, 80) if FOLDS else None}"
+              f", data_size={show(mts.get(mp[2]), 80)}, subset_max_train="
+              f"{show(mts.get(mp[1]), 40)})", node=mts_n)
+    tt = pic.get(pp[1])
+    inner = tt
+    while inner is not None and inner[0] == "call" and inner[1] in (
+            "builtins.list", "builtins.tuple") and len(inner[2]) == 1:
+        inner = inner[2][0]       # materialised in order
+    ok_t = inner is not None and inner[0] == "call" and \
+        inner[1] == "mokapot.brew.make_train_sets"
+    ctx.check(ok_t and pic.get(pp[0]) == PSMS,
               "C02b-train-sets-unchanged", f,
               "the list of training index sets reaches parse_in_chunks "
-              "unchanged (fold order kept)", f"train_idx = {show(tt, 120)}",
-              node=pic[0])
-    # model index per row
-    m2p = [n for n in ast.walk(f.node) if isinstance(n, ast.Assign)
-           and ast.unparse(n.targets[0]) == "model_to_psm_idx"]
-    ctx.require(len(m2p) == 2, f"{f.qual}: model_to_psm_idx idiom not "
-                "recognised")
-    first, second = sorted(m2p, key=lambda n: n.lineno)
-    ok1 = False
-    v = first.value
-    if isinstance(v, ast.ListComp) and isinstance(v.elt, ast.ListComp):
-        inner = v.elt
-        g = inner.generators[0]
-        if isinstance(g.iter, ast.Call) and ast.unparse(
-                g.iter.func) == "enumerate" and isinstance(
-                    g.target, ast.Tuple):
-            i, idx = (x.id for x in g.target.elts)
-            ok1 = (ast.unparse(inner.elt) in (f"[{i}] * len({idx})",
-                                              f"len({idx}) * [{i}]")
-                   and ast.unparse(g.iter.args[0]) == v.generators[0]
-                   .target.id
-                   and ast.unparse(v.generators[0].iter) == tfi
-                   and not g.ifs and not v.generators[0].ifs)
+              "unchanged (fold order kept), with the same collections",
+              f"train_idx = {show(tt, 120) if tt else None}; psms = "
+              f"{show(pic.get(pp[0]), 60)}", node=pic_n)
+    # per-row model index of every collection, in input order
+    IDX = nrm(prd.get(rp[0]))
+    ok1 = ok2 = ok3 = False
+    why = show(IDX, 200) if IDX else "None"
+    if FL is not None and IDX is not None and IDX[0] == "comp" and \
+            len(IDX[3]) == 1 and not IDX[3][0][2] and IDX[3][0][1] == PSMS:
+        e = IDX[2]
+        if e[0] == "sub":
+            cat, order = np_call(e[1]), e[2]
+            while order[0] == "mcall" and order[2] == "tolist" or (
+                    order[0] == "call" and order[1] in (
+                        "builtins.list", "numpy.asarray", "numpy.array")
+                    and len(order[2]) == 1):
+                # the same index values as a list / array
+                order = order[1] if order[0] == "mcall" else order[2][0]
+            ok3 = bool(cat) and cat[0] in ("concatenate", "hstack") and \
+                len(cat[1]) == 1
+            labels = cat[1][0] if ok3 else None
+            o = np_call(order)
+            ok2 = bool(o) and o[0] == "argsort" and len(o[1]) == 1 and \
+                o[1][0] == ("call", "mokapot.utils.flatten", (FL,), ())
+            if labels is not None and labels[0] == "comp" and \
+                    len(labels[3]) == 1 and not labels[3][0][2] and \
+                    labels[3][0][1] == ("call", "builtins.enumerate",
+                                        (FL,), ()):
+                one = ("list", (("idx", FL),))
+                n = ("call", "builtins.len", (("elem", FL),), ())
+                ok1 = labels[2] in (("bin", "*", one, n),
+                                    ("bin", "*", n, one))
     ctx.check(ok1, "C02b-model-index-per-row", f,
               "row j of fold i is labelled with model index i (i = position "
-              "of the fold in the collection's fold list)",
-              f"{ast.unparse(first.value)[:120]}", node=first)
-    oo = [n for n in ast.walk(f.node) if isinstance(n, ast.Assign)
-          and ast.unparse(n.targets[0]) == "original_order_idx"]
-    ok2 = False
-    if len(oo) == 1 and isinstance(oo[0].value, ast.ListComp):
-        v2 = oo[0].value
-        var = v2.generators[0].target.id
-        ok2 = (ast.unparse(v2.elt) in (
-            f"np.argsort(utils.flatten({var})).tolist()",
-            f"np.argsort(utils.flatten({var}))")
-            and ast.unparse(v2.generators[0].iter) == tfi)
+              "of the fold in the collection's fold list)", why, node=prd_n)
     ctx.check(ok2, "C02b-inverse-of-fold-major-order", f,
               "the un-permutation is argsort of the collection's flattened "
-              "(fold-major) row indices",
-              f"{[ast.unparse(o.value)[:100] for o in oo]}", node=first)
-    ok3 = False
-    v3 = second.value
-    if isinstance(v3, ast.ListComp) and isinstance(
-            v3.generators[0].target, ast.Tuple):
-        a, b = (x.id for x in v3.generators[0].target.elts)
-        ok3 = (ast.unparse(v3.elt) == f"np.concatenate({a})[{b}]"
-               and ast.unparse(v3.generators[0].iter) ==
-               "zip(model_to_psm_idx, original_order_idx)")
-    ctx.check(ok3, "C02b-model-index-in-input-order", f,
+              "(fold-major) row indices", why, node=prd_n)
+    ctx.check(ok3 and ok1 and ok2, "C02b-model-index-in-input-order", f,
               "per-row model indices are concatenated fold-major and "
-              "brought to input order with that un-permutation",
-              f"{ast.unparse(second.value)[:120]}", node=second)
-    # _predict receives them with the same collections and models
-    pc = [n for n in ast.walk(f.node) if isinstance(n, ast.Call)
-          and ast.unparse(n.func) == "_predict"]
-    ctx.require(len(pc) == 1, f"{f.qual}: _predict call not found")
-    pk = {k.arg: ast.unparse(k.value) for k in pc[0].keywords}
-    ctx.check(pk.get("models_idx") == "model_to_psm_idx"
-              and pk.get("psms") == "psms" and pk.get("models") == "models",
+              "brought to input order with that un-permutation", why,
+              node=prd_n)
+    ctx.check(PSMS is not None and PSMS == pic.get(pp[0]),
               "C02b-predict-arguments", f,
-              "_predict gets the per-row model indices, the collections and "
-              "the fold-sorted models", f"_predict({pk})", node=pc[0])
+              "_predict gets the per-row model indices of the same "
+              "collections that were split and parsed",
+              f"_predict(psms={show(PSMS, 60) if PSMS else None})",
+              node=prd_n)
     # models is element 0 of zip(*fitted)
-    mt = T.of([n for n in ast.walk(pc[0]) if isinstance(n, ast.Name)
-               and n.id == "models"][0])
-    ok_m = mt[0] == "item" and mt[2] == 0 and "zip" in tkey(mt, 200)
+    mt = prd.get(rp[2])
+    ok_m = mt is not None and mt[0] == "item" and mt[2] == 0 and any(
+        isinstance(x, tuple) and x[:2] == ("call", "builtins.zip")
+        for x in walk_term(mt))
     ctx.check(ok_m, "C02b-models-from-fitted", f,
               "the models handed to _predict are the (sorted) fitted models",
-              f"models = {show(mt, 120)}", node=pc[0])
+              f"models = {show(mt, 120) if mt else None}", node=prd_n)
 
 
 def strip_growth(t):
@@ -513,10 +656,9 @@ def _predict(ctx, f):
                 c[1][0][0] == "var" and oc and oc[0] == "argsort" and \
                 len(oc[1]) == 1 and not oc[2]:
             sc_var = c[1][0]
-            flat = oc[1][0]
-            ok_y = (flat[0] == "call" and flat[1] == "builtins.sum"
-                    and len(flat[2]) == 2 and flat[2][1] == ("list", ())
-                    and orig_t is not None and flat[2][0] == orig_t)
+            flat = flattened_of(oc[1][0])
+            ok_y = flat is not None and orig_t is not None and \
+                flat == orig_t
     ctx.check(ok_y, "C02d-scores-in-input-order", f,
               "scores are concatenated fold-major and un-permuted with "
               "argsort of the fold-major original row numbers (the lists "
